@@ -155,5 +155,84 @@ theorem group_image (objs : List InSec) (cx : Ctx) (seg : Segment) (sec : Str) (
   · rw [hem]
     exact (two_aligns_dot objs _ _ c mid hmid _).2
 
+/-! ### `_gp` -/
+
+theorem last2_gp : last2 c!"_gp" = ['p', 'g'] := by decide
+
+theorem inner_after_gp_symOf (cx : Ctx) (seg : Segment) (sec : Str) (hsy : cx.emitSecSyms = true) (body : List Line)
+    (hb : ∀ l ∈ body, BodyLine cx.d.settings.style seg.wildcardSections l) :
+    ∀ l ∈ [linkerSym (cx.d.settings.style.secStart seg.name sec) .dot] ++ body ++ sectionSymEnd cx seg sec,
+      InnerLine cx.d.settings.style seg.wildcardSections l ∧ symOf l ≠ some c!"_gp" := by
+  intro l hl
+  have gpne : ∀ s : Str, last2 s ≠ ['p', 'g'] → s ≠ c!"_gp" := fun s h e => h (by rw [e]; decide)
+  rcases List.mem_append.1 hl with hl | hl
+  · rcases List.mem_append.1 hl with hl | hl
+    · simp only [List.mem_cons, List.mem_nil_iff, or_false] at hl
+      subst hl
+      refine ⟨.symDot _ (secStart_ok _ _ _), ?_⟩
+      have := gpne _ (by rw [last2_secStart]; cases cx.d.settings.style <;> decide : last2 (cx.d.settings.style.secStart seg.name sec) ≠ ['p', 'g'])
+      simp [symOf, linkerSym, endsOk_ne_dot _ (secStart_ok cx.d.settings.style seg.name sec), this]
+    · refine ⟨.body (hb l hl), ?_⟩
+      cases hb l hl with
+      | input k p m s => simp [symOf]
+      | pad n => simp [symOf]
+      | offset nm =>
+        have := gpne _ (by rw [last2_linkerOffset]; cases cx.d.settings.style <;> decide : last2 (cx.d.settings.style.linkerOffset nm) ≠ ['p', 'g'])
+        simp [symOf, linkerSym, endsOk_ne_dot _ (linkerOffset_ok cx.d.settings.style nm), this]
+  · refine ⟨sectionSymEnd_inner cx seg sec l hl, ?_⟩
+    rw [groupEnd_eq cx seg sec hsy] at hl
+    rcases List.mem_append.1 hl with hl | hl
+    · rcases List.mem_append.1 hl with hl | hl
+      · exact alignOpt_symOf _ _ l hl
+      · exact alignOpt_symOf _ _ l hl
+    · simp only [List.mem_cons, List.mem_nil_iff, or_false] at hl
+      rcases hl with rfl | rfl
+      · have := gpne _ (by rw [last2_secEnd]; cases cx.d.settings.style <;> decide : last2 (cx.d.settings.style.secEnd seg.name sec) ≠ ['p', 'g'])
+        simp [symOf, linkerSym, endsOk_ne_dot _ (secEnd_ok cx.d.settings.style seg.name sec), this]
+      · have := gpne _ (by rw [last2_secSize]; cases cx.d.settings.style <;> decide : last2 (cx.d.settings.style.secSize seg.name sec) ≠ ['p', 'g'])
+        simp [symOf, linkerSym, endsOk_ne_dot _ (secSize_ok cx.d.settings.style seg.name sec), this]
+
+/-- **`_gp` in the linked image**: when the segment's `gp_info` is included and names this
+section, `_gp` holds — behind the group's statements — the start of the group (the location
+counter after both start alignments, which is also the value of the group's start symbol)
+plus the offset, as a 32-bit value. -/
+theorem group_gp_image (objs : List InSec) (cx : Ctx) (seg : Segment) (sec : Str) (hsy : cx.emitSecSyms = true)
+    (body : List Line) (hb : ∀ l ∈ body, BodyLine cx.d.settings.style seg.wildcardSections l)
+    (gp : GpInfo) (hgp : seg.gpInfo = some gp) (hem : shouldEmit cx.o gp.cond = true) (hsec : gp.sect = sec)
+    (off : Nat) (hoff : parseHex (toHexI32 gp.offset) = some off)
+    (c : Cur) (st : St) (hin : Inside c st) (k : List Line) :
+    let s := c.addr + alignO (lookup sec seg.sectionsStartAlignment) (alignO seg.sectionStartAlign (st.dot - c.addr))
+    lookupLast c!"_gp" (execK objs st (sectionSymStart cx seg sec ++ body ++ sectionSymEnd cx seg sec) k).syms
+      = some (.num ((s + off) % M32)) := by
+  intro s
+  rw [groupStart_eq cx seg sec hsy]
+  have hgl : gpLine cx seg sec = [.assign c!"_gp" (.dotPlus (toHexI32 gp.offset)) gp.provide gp.hidden false] := by
+    unfold gpLine; rw [hgp]; simp [hem, hsec]
+  rw [hgl]
+  have hre : alignOpt seg.sectionStartAlign ++ alignOpt (lookup sec seg.sectionsStartAlignment)
+      ++ [Line.assign c!"_gp" (.dotPlus (toHexI32 gp.offset)) gp.provide gp.hidden false]
+      ++ [linkerSym (cx.d.settings.style.secStart seg.name sec) .dot] ++ body ++ sectionSymEnd cx seg sec
+      = (alignOpt seg.sectionStartAlign ++ alignOpt (lookup sec seg.sectionsStartAlignment))
+        ++ ([Line.assign c!"_gp" (.dotPlus (toHexI32 gp.offset)) gp.provide gp.hidden false]
+        ++ ([linkerSym (cx.d.settings.style.secStart seg.name sec) .dot] ++ body ++ sectionSymEnd cx seg sec)) := by
+    simp only [List.append_assoc]
+  rw [hre, execK_append, execK_append]
+  obtain ⟨i2, d2⟩ := two_aligns_dot objs seg.sectionStartAlign (lookup sec seg.sectionsStartAlignment) c st hin
+    ([Line.assign c!"_gp" (.dotPlus (toHexI32 gp.offset)) gp.provide gp.hidden false]
+        ++ ([linkerSym (cx.d.settings.style.secStart seg.name sec) .dot] ++ body ++ sectionSymEnd cx seg sec) ++ k)
+  generalize execK objs st (alignOpt seg.sectionStartAlign ++ alignOpt (lookup sec seg.sectionsStartAlignment)) _ = st1 at *
+  have e1 : execK objs st1 [Line.assign c!"_gp" (.dotPlus (toHexI32 gp.offset)) gp.provide gp.hidden false]
+      (([linkerSym (cx.d.settings.style.secStart seg.name sec) .dot] ++ body ++ sectionSymEnd cx seg sec) ++ k)
+      = { st1 with syms := st1.syms ++ [(c!"_gp", Val.num ((st1.dot + off) % M32))] } := by
+    simp only [execK, List.nil_append]
+    rw [step_assign_sym objs st1 _ _ _ _ _ _ gp_ne_dot i2.nd]
+    simp [eval, hoff]
+  rw [e1]
+  have hall := inner_after_gp_symOf cx seg sec hsy body hb
+  rw [run_inner_keeps objs cx.d.settings.style seg.wildcardSections c c!"_gp" _ (fun l hl => (hall l hl).1)
+    (fun l hl => (hall l hl).2) { st1 with syms := st1.syms ++ [(c!"_gp", Val.num ((st1.dot + off) % M32))] }
+    ⟨i2.cur, i2.le, i2.nd⟩ k]
+  simp [lookupLast_snoc, d2, s]
+
 end Ld
 end Slinky
